@@ -1842,7 +1842,8 @@ class SpaceUpdater(SharedSpaceOperations):
             nodes_removed.append(child)
             self._remove_hook(self._graph, child)
 
-        for _, v in nx.edge_bfs(self.manager._graph, node):
+        # Sub spaces of the space and of the spaces in its tree
+        for _, v in nx.edge_bfs(self.manager._graph, nodes_removed):
             if v in nodes_removed:
                 continue    # a sub space inside the deleted tree
             self._instructions.append(
